@@ -1639,6 +1639,10 @@ class AstEval:
             #
             # check other scopes if required by global declarations
             #
+            if arg.id == "__builtins__":
+                # exec() of natively compiled code (lambda, @pyscript_compile) leaves it in the module
+                # globals; it is not a name scripts can read
+                return EvalName(arg.id)
             declared_global = self.curr_func and arg.id in self.curr_func.global_names
             #
             # now check in our current symbol table, and then some other places; a name declared
